@@ -29,6 +29,10 @@ type TxSpec struct {
 	Gas     uint64
 	// Extra signers make a multi-signer transaction (each signs with the same mode).
 	Extra []ExtraSigner
+	// FeePayer / FeeGranter fill the fee fields of auth_info; a payer other than the message signer is a required signer
+	// (the last one) and must be listed in Extra to sign.
+	FeePayer   sdk.AccAddress
+	FeeGranter sdk.AccAddress
 }
 
 type ExtraSigner struct {
@@ -48,6 +52,12 @@ func (w *World) SignTx(s TxSpec) ([]byte, error) {
 	b.SetGasLimit(gas)
 	b.SetTimeoutHeight(s.Timeout)
 	b.SetMemo(s.Memo)
+	if s.FeePayer != nil {
+		b.SetFeePayer(s.FeePayer)
+	}
+	if s.FeeGranter != nil {
+		b.SetFeeGranter(s.FeeGranter)
+	}
 	if err := b.SetMsgs(s.Msgs...); err != nil {
 		return nil, err
 	}
